@@ -10,7 +10,7 @@ where
         usize::try_from(n).map_err(|e| io::Error::new(io::ErrorKind::InvalidData, e))
     })?;
 
-    let mut chunks = Vec::with_capacity(n_chunk);
+    let mut chunks = Vec::with_capacity(n_chunk.min(1 << 16));
 
     for _ in 0..n_chunk {
         let chunk = read_chunk(reader).await?;
